@@ -352,7 +352,8 @@ def relevant(ob: Dict[str, Any], pid: str) -> bool:
 # native witness search: where the counter-model of a failed obligation is an abstract (framework) object that
 # cannot be replayed as is, a per-property script looks for a concrete input showing a violation on the real code.
 # Not part of the proof; only decides whether the VIOLATION line carries a reproduced input.
-WITNESS_SEARCH = {'C18': ('replayers/c18.py', ('werkzeug', 'flask', 'aiohttp'))}
+WITNESS_SEARCH = {'C18': ('replayers/c18.py', ('werkzeug', 'flask', 'aiohttp')),
+                  'C16': ('replayers/c16.py', ('openapi', 'openrpc'))}
 
 
 def witness_search(pid, violations):
